@@ -132,3 +132,27 @@ def eqcov_impl(ctx, rule, adt_path, method, trait, both=True):
     else:
         ctx.ok(rule, key, "%s reads all %d field(s) of both operands whole" % (f.id, nfields), loc=f.loc,
                sample={"rule": rule, "fn": f.id, "fields_read": sorted("%s.%s" % (k[1] or "", k[2]) for k in reads if k[0] == 1)})
+
+
+def field_writes(ctx, f, name):
+    """assignments to a struct field called `name`: [(block, stmt index, value term, line)]"""
+    g = ctx.guards(f)
+    out = []
+    for bi, si, s in f.body.iter_stmts():
+        if s.kind == "assign" and s.place and s.place[1] and isinstance(s.place[1][-1], tuple) and \
+                s.place[1][-1][0] == "f" and s.place[1][-1][2] == name:
+            out.append((bi, si, g.eb.rvalue(s.rv), s.line))
+    return out
+
+
+def calls_named(ctx, f, *names):
+    g = ctx.guards(f)
+    return [(bi, g.eb.call_expr(t)) for bi, t in f.body.calls() if t.callee.name in names]
+
+
+def req(ctx, rule, key, cond, okmsg, badmsg, loc=None):
+    if cond:
+        ctx.ok(rule, key, okmsg, loc=loc)
+    else:
+        ctx.bad(rule, key, badmsg, loc=loc)
+    return bool(cond)
